@@ -116,8 +116,10 @@ class AffineTransformation(darsia.BaseTransformation):
                     ).as_matrix()
 
                     self.rotation = np.matmul(self.rotation, rotation_matrix)
+                    # The inverse of a product is the product of the inverses in
+                    # reversed order.
                     self.rotation_inv = np.matmul(
-                        self.rotation_inv, rotation_matrix_inv
+                        rotation_matrix_inv, self.rotation_inv
                     )
 
     def set_parameters_as_vector(self, parameters: np.ndarray) -> None:
